@@ -135,8 +135,8 @@ class Sink:
         m = self.monitor
         if self.fail_at is not None:
             k = self.fail_at
-            hit = (k == m.writes)
-            if (hit if type(hit) is bool else bool(hit)):
+            miss = (k != m.writes)  # "no fault here" first: late fault positions are explored first
+            if not (miss if type(miss) is bool else bool(miss)):
                 m.writes += 1
                 raise OSError("injected sink failure")
         m.writes += 1
@@ -283,8 +283,8 @@ class Src:
     def read(self, n=-1):
         m = self.monitor
         if self.fail_at is not None:
-            hit = (self.fail_at == m.reads)
-            if (hit if type(hit) is bool else bool(hit)):
+            miss = (self.fail_at != m.reads)
+            if not (miss if type(miss) is bool else bool(miss)):
                 m.reads += 1
                 raise OSError("injected source failure")
         m.reads += 1
@@ -310,7 +310,9 @@ class Src:
             pos = (need > 0)
             if (pos if type(pos) is bool else bool(pos)):
                 c = ctx()
-                if c.branch(z3.Bool(c.name("short_read"))):
+                # "not short" is taken first, so the depth-first search visits the cut positions from the
+                # END of the encoding backwards (tagged sections and trailers come last)
+                if not c.branch(z3.Not(z3.Bool(c.name("short_read")))):
                     hi = (need.hi if type(need) is SymInt else need) - 1
                     a, _ = S.sym_var(c.name("short_len"), 0, hi)
                     if type(need) is SymInt:
